@@ -1,8 +1,48 @@
 CONFIG = dict(
         level='proof',
         streams=[dict(harness='c05', driver='c05', shrink_field='ops')],
-        rule='operation sequences on 1-3 rbtree.RBTree sharing one rbtree.Allocator',
-        exhaustive_note='all sequences of 4 Insert/DeleteWithKey operations over 6 keys and of 5 over 4 keys (quick); of 5 over 6 keys and 7 over 3 keys (thorough)',
-        assumptions=[],
-        trusted_base=['hand-written Gallina model coq/theories/RBTree/Model.v of internal/rbtree/rbtree.go, tied to the code by the replay of every harness case'],
+        search_seconds=150,
+        rule='operation sequences on 1-3 real rbtree.RBTree sharing ONE real rbtree.Allocator: Insert / DeleteWithKey / DeleteWithIterator / FindGE / FindLE / '
+             'Get / Min / Max / Next / Prev / Len / Erase / CloneDeep; iterators live in 4 registers, are obtained from Insert/FindGE/FindLE/Min/Max and advanced '
+             'with Next/Prev (also over Limit and NegativeLimit, where the assertions must fire). Streams: exhaustive insert/delete sequences, random '
+             'sequences of 10..400 operations with phases of different insert/delete/query weights over a key universe of 3..60 keys (one quarter '
+             'scaled to the full uint32 range, values up to 2^32-1), and walks that fill a tree in ascending/descending/random order and delete '
+             'through a second iterator while iterating forwards or backwards. After EVERY operation the whole arena (every cell: key, value, '
+             'parent, left, right, colour), the gaps, every tree header and Item() of every live iterator are recorded. '
+             'Non-trivial = at least 3 successful insertions and 1 successful deletion; distinct = distinct (number of trees, operation list).',
+        exhaustive_note='every sequence of 4 Insert/DeleteWithKey operations over 6 keys (20 736) and of 5 over 4 keys (32 768) in the quick tier; of 5 over '
+                        '6 keys (248 832) and of 7 over 3 keys (279 936) in the thorough tier; the arena is compared after every operation, so all shorter sequences are covered as prefixes',
+        assumptions=[
+            'malloc takes an arbitrary key of the gaps map: the node index actually handed out is read from the implementation (returned iterator / walk of the clone) '
+            'and fed to the model as an explicit choice; the theorems quantify over every choice the model accepts (a gap if there is one, else len(storage))',
+            'the theorems exclude what the Go API leaves undefined: iterators that do not point into the tree they are used with (deleted element, other tree), '
+            'CloneDeep onto a slot that still owns nodes; the harness never does these (an operation on an invalidated register is skipped on both sides)',
+            'hibernation / serialisation of the allocator is C06 and is not modelled here',
+        ],
+        trusted_base=[
+            'hand-written Gallina model coq/theories/RBTree/Model.v + Arena.v of internal/rbtree/rbtree.go (recursive tree with node ids; parent links, minNode/maxNode/count derived), '
+            'tied to the code by comparing, after every operation of every case, the result and the complete arena image (to_arena) with the real arena',
+            'read-only hooks /repo/internal/rbtree/verif_hooks.go (VerifSnapshot, VerifHeader, VerifNode) and /repo/verifapi/rbtree.go',
+            'the gap-complement and zero-cell comparison of the snapshot is done by the OCaml driver itself (allocator bookkeeping is C06)',
+        ],
+        level_text='Coq theorems (closed under the global context) over the executable Gallina model, for ALL trees / ALL operation sequences on any number of trees '
+                   'sharing an allocator and ALL node-index choices of malloc: C05_sequences (induction over the operation list: every reachable state satisfies the invariant '
+                   'and the run equals, result for result, the run of n sorted association lists), C05_step, C05_insert_map / C05_delete_map / C05_lookup_map '
+                   '(entry list after Insert = sorted-list insert, after doDelete = sorted-list delete; membership, Get, FindGE, FindLE, Min, Max, Len, Next, Prev and the complete '
+                   'forward/backward walks answer like the list), C05_insert_rb / C05_delete_rb / C05_rb_meaning (search-tree order, black root, no red-red, equal black height preserved), '
+                   'C05_height (depth <= 2*log2(size+1)) and C05_height_pow, C05_iterators_stable and C05_iterators_stable_step (a node id keeps its key and value across every '
+                   'operation on every tree unless that operation removes it - including the predecessor swap of doDelete), C05_arena_links (derived parent links consistent), '
+                   'C05_frame (operations on one tree leave the others untouched), C05_oracle_sound (the snapshot oracle used on the real arena is sound).',
+        level_note='Proved about the Gallina model, not about the Go text (no verified Go semantics): the tie is the replay - on the unchanged repository zero disagreements on '
+                   'about 55 000 cases / 510 000 operations per quick run, node for node and link for link. Modelled rather than verified: all of rbtree.go. The model is a '
+                   'recursive tree, not a pointer structure: parent links, minNode/maxNode and count are DERIVED from the shape (C05_arena_links proves the derived links consistent; '
+                   'that the incrementally maintained Go fields equal the derived ones is checked by the replay and by the oracle on every snapshot). doDelete(node) is modelled as '
+                   'deletion of that node\'s key (equal on search trees with distinct ids, which the invariant provides). Several trees on one allocator are separate values in the model, so '
+                   'isolation holds there by construction (C05_frame, disjoint ids in Inv); that the real trees do not disturb each other in the shared arena is what the full-arena '
+                   'comparison after every operation checks (every cell outside the model trees must be zero, gaps = complement). Independently of the model, an executable oracle '
+                   'extracted from Coq and proved sound (C05_oracle_sound) judges every snapshot of the real arena: red-black search tree, parent/min/max/count consistent, '
+                   'entries and node ids equal to a sorted-map specification driven only by the inputs; every query answer and every live iterator\'s Item() is compared with that specification (PROPFAIL).',
+        technique='machine-checked proof in Coq 8.16 over a hand-written executable Gallina model (recursive red-black tree with node ids and a deficit flag; '
+                  'invariant RB t ctx n, in-order entry lists, induction over operation sequences) + replay of the real trees/allocator through the extracted model '
+                  '(result and complete arena after every operation) + a Coq-extracted, proved-sound oracle on the implementation\'s own snapshots and answers',
     )
